@@ -133,11 +133,13 @@ def _alarm(*a):
 
 def call(fn):
     signal.signal(signal.SIGALRM, _alarm)
-    signal.alarm(60)
+    import impl
+    signal.alarm(impl.budget(60))
     try:
         fn()
         return None
     except Hang:
+        impl.HANGS[0] += 1
         return ('hang', 'Hang', 'no result within 60 s')
     except Exception as e:
         import traceback
